@@ -3,7 +3,7 @@ from shell import replayers
 
 ID = "C08"
 LEVEL = "other"
-FUNCTIONS = ["PortfolioSpace.null_action", "PortfolioSpace.make_rebalancing_request", "TradingEnv.step", "body:Transmitter._create_partitions#0", "TradingEnv._process_latent_events", "TradingEnv._process_nonlatent_events"]
+FUNCTIONS = ["PortfolioSpace.null_action", "PortfolioSpace.make_rebalancing_request", "TradingEnv.step", "body:Transmitter._create_partitions#0", "TradingEnv._process_latent_events", "TradingEnv._process_nonlatent_events", "TradingEnv.reset"]
 from shell import c08
 SHELL = [c08.timing]
 REPLAYERS = [
@@ -19,4 +19,6 @@ LEVEL_TEXT = ("Deductive kernel: TradingEnv.step is executed symbolically with a
 EXPLANATION = LEVEL_TEXT
 NOT_DEDUCTIVE = ["latent iff stamped within `latency` of the previous timestep (Transmitter._create_partitions loop): bounded shell (C04/C08)",
                  "reset establishes the delay line of d null actions: bounded shell"]
-EXTRA_ASSUMPTIONS = ["ASSUMED contracts: IState.__call__, Transmitter._next; input assumption of TradingEnv._process_*_events: delivered quotes stay within the property's quantifier (0 < bid <= ask, cash 1/1, rate quoted)"]
+EXTRA_ASSUMPTIONS = [
+    "TradingEnv.reset is verified to establish the environment invariant that TradingEnv.step assumes at entry and re-establishes at exit, modulo ASSUMED summaries (IState.reset, Transmitter._reset, Transmitter._next, IState.__call__) and TRUSTED small models (sorted() as a permutation ordered by IEvent.__lt__ - itself executed -, Cash() as one fixed cash key with the precondition that the space's base currency is that key, defaultdict(LimitOrderBook) as an empty book table whose rows read NaN : NaN, alive, AbstractContract.verify/Rate.verify, np.inf as an unconstrained constant); the configuration clauses (fees >= 0, contract specs in the property's regime, reward parameters, 0 within the box bounds) are preconditions of reset",
+    "ASSUMED contracts: IState.__call__, Transmitter._next; input assumption of TradingEnv._process_*_events: delivered quotes stay within the property's quantifier (0 < bid <= ask, cash 1/1, rate quoted)"]
